@@ -127,7 +127,7 @@ func c08CLI(cs *vrt.Case, r *vrt.Rng) {
 	}
 	desc := map[string]any{"kind": "cli sessions", "program": prog.src, "evaluator_input_bytes": len(eIn), "garbler_input_bytes": sizes}
 	cs.SetSample(desc)
-	env := append(os.Environ(), "MPCLDIR=/repo")
+	env := append(os.Environ(), "MPCLDIR="+vrt.Repo)
 	ctx, cancel := context.WithTimeout(context.Background(), 3*time.Minute)
 	defer cancel()
 	ev := exec.CommandContext(ctx, bin, "-e", "-i", fmt.Sprintf("0x%x", eIn), "-port", port, file)
